@@ -42,14 +42,16 @@ fn main() {
             simkit::driver::check_main(a(2), tier, seed_from_env())
         }
         "replay" => simkit::driver::replay_main(a(2)),
+        "triage" => simkit::driver::triage_main(a(2), Tier::parse(a(3)).unwrap_or(Tier::Quick), seed_from_env(), a(4)),
         "selftest" => match a(2) {
             "determinism" => {
                 let n = a(3).parse().unwrap_or(2000);
                 let props: Vec<&str> = if a(4).is_empty() { vec!["C08", "C07", "C06"] } else { vec![a(4)] };
                 simkit::driver::selftest_determinism(&props, n)
             }
+            "rewrite" => simkit::driver::selftest_rewrite(),
             _ => {
-                eprintln!("usage: sim selftest determinism [n] [prop]");
+                eprintln!("usage: sim selftest determinism [n] [prop] | rewrite");
                 2
             }
         },
